@@ -465,15 +465,35 @@ func interpolate(k *run.K, ls geom.LineString, t model.Tree, M float64) {
 				lo, hi := math.Min(p0[j], p1[j]), math.Max(p0[j], p1[j])
 				want := p0[j] + tp*(p1[j]-p0[j])
 				span := math.Max(math.Abs(p0[j]), math.Abs(p1[j])) + 1
-				if zeroRun || tp < 1e-9 || tp > 1-1e-9 {
-					// at a vertex the value of either adjacent segment is acceptable: use the global range
-					glo, ghi := math.Inf(1), math.Inf(-1)
-					for _, q := range a.pts {
-						glo, ghi = math.Min(glo, q[j]), math.Max(ghi, q[j])
+				if tp < 1e-9 || tp > 1-1e-9 {
+					// at a vertex: any value the curve takes at that arc length is acceptable, i.e. the range
+					// over the vertex and the vertices joined to it through zero-length segments (plus the
+					// sliver of the adjacent segments that 1e-9 of a segment can reach)
+					vi := seg
+					if tp > 0.5 {
+						vi = seg + 1
 					}
-					if !(v >= glo-1e-9*span && v <= ghi+1e-9*span) {
+					lo2, hi2 := vi, vi
+					for lo2 > 0 && a.zero[lo2-1] {
+						lo2--
+					}
+					for hi2 < len(a.pts)-1 && a.zero[hi2] {
+						hi2++
+					}
+					glo, ghi := math.Inf(1), math.Inf(-1)
+					gspan := span
+					for q := lo2; q <= hi2; q++ {
+						glo, ghi = math.Min(glo, a.pts[q][j]), math.Max(ghi, a.pts[q][j])
+					}
+					for _, q := range []int{lo2 - 1, hi2 + 1} {
+						if q >= 0 && q < len(a.pts) {
+							gspan = math.Max(gspan, math.Abs(a.pts[q][j])+1)
+						}
+					}
+					if !(v >= glo-2e-9*gspan && v <= ghi+2e-9*gspan) {
 						okZM = false
 					}
+					k.Count("interp_zm_vertex_cluster_checks", 1)
 				} else if !(math.Abs(v-want) <= 1e-6*span && v >= lo-1e-9*span && v <= hi+1e-9*span) {
 					okZM = false
 				}
